@@ -44,11 +44,12 @@ theorem getIssuer_eq (o : Ora) (issuer : String) :
 /-- **`makeResponse` (generated from response.go) refines the hand model's `mkResponse`** -/
 theorem makeResponse_refines (o : Ora) (id reqID acs ii status msg issuer : String) :
     ∃ r, makeResponse o id reqID acs ii status msg issuer = .ok (some r) ∧
-      msgOf r none = Callback.mkResponse id reqID acs ii status msg issuer ∧ r.Version = "2.0" := by
+      msgOf r none = Callback.mkResponse id reqID acs ii status msg issuer ∧ r.Version = "2.0" ∧
+      assertionOf r.Assertion = none := by
   unfold makeResponse makeResponse.body
   by_cases h : acs = ""
+  · simp [h, getIssuer_eq, Ctl.toRes, Res.isPanic, Res.get, msgOf, Callback.mkResponse, deref]; exact ⟨rfl, rfl⟩
   · simp [h, getIssuer_eq, Ctl.toRes, Res.isPanic, Res.get, msgOf, Callback.mkResponse, deref]; rfl
-  · simp [h, getIssuer_eq, Ctl.toRes, Res.isPanic, Res.get, msgOf, Callback.mkResponse, deref]
 
 /-- **`makeAssertion` (generated from response.go) refines the hand model's `mkAssertion`**: for the callback's call
     (`sendIP = ""`, `authN = true`) it never panics and builds exactly the assertion of the model, the identifier being
@@ -67,9 +68,10 @@ theorem makeAssertion_refines (o : Ora) (reqID acs ii untl issuer : String) (nam
     the identifier of its `NewID()` call site -/
 theorem makeFailedResponse_refines (o : Ora) (resp : provider_Response) (reason message fmt : String) :
     ∃ r, Response_makeFailedResponse o (some resp) reason message fmt = .ok (some r) ∧
-      msgOf r none = Callback.mkResponse (o.newID "Response_makeFailedResponse" 0) resp.RequestID resp.AcsUrl (o.m_Format o.now fmt) reason message resp.Issuer := by
-  obtain ⟨r, hr, hm, _⟩ := makeResponse_refines o (o.newID "Response_makeFailedResponse" 0) resp.RequestID resp.AcsUrl (o.m_Format o.now fmt) reason message resp.Issuer
-  refine ⟨r, ?_, hm⟩
+      msgOf r none = Callback.mkResponse (o.newID "Response_makeFailedResponse" 0) resp.RequestID resp.AcsUrl (o.m_Format o.now fmt) reason message resp.Issuer ∧
+      assertionOf r.Assertion = none := by
+  obtain ⟨r, hr, hm, _, ha⟩ := makeResponse_refines o (o.newID "Response_makeFailedResponse" 0) resp.RequestID resp.AcsUrl (o.m_Format o.now fmt) reason message resp.Issuer
+  refine ⟨r, ?_, hm, ha⟩
   simp [Response_makeFailedResponse, Response_makeFailedResponse.body, Ctl.toRes, deref, hr, Res.isPanic, Res.get]
 
 /-- the hand model's view of a generated `samlp.LogoutResponseType` -/
